@@ -13,6 +13,10 @@ pub mod carrier;
 pub mod chain_monitor;
 pub mod cli_config;
 pub mod config;
+#[cfg(not(kani))]
+pub mod dbm;
+#[cfg(kani)]
+#[path = "/verif/models/dbm_tower.rs"]
 pub mod dbm;
 #[doc(hidden)]
 mod errors;
@@ -27,3 +31,13 @@ pub mod watcher;
 
 #[cfg(test)]
 mod test_utils;
+
+#[cfg(kani)]
+#[path = "/verif/models/collections.rs"]
+mod verif_collections;
+#[cfg(kani)]
+#[path = "/verif/models/bitcoind.rs"]
+mod verif_bitcoind;
+#[cfg(kani)]
+#[path = "/verif/models/stubs_teos.rs"]
+mod verif_stubs;
